@@ -3,6 +3,7 @@ package main
 import (
 	"encoding/json"
 	"fmt"
+	"go/build"
 	"os"
 	"path/filepath"
 	"regexp"
@@ -13,6 +14,8 @@ import (
 
 	"k8s.io/gengo/args"
 	"k8s.io/gengo/generator"
+	"k8s.io/gengo/namer"
+	"k8s.io/gengo/parser"
 	"k8s.io/gengo/types"
 	"verif/common"
 )
@@ -87,6 +90,100 @@ func (w *ibWorld) universe(root string) types.Universe {
 		u[e[0]].Imports[e[1]] = u[e[1]]
 	}
 	return u
+}
+
+// closureAfterAdd loads the first packages of the world into a real Builder (GOPATH mode, scratch tree), makes a Context,
+// asks for the closures, then adds the remaining packages one at a time with Context.AddDirectory and asks again; every
+// answer is compared with the reachability computed from the universe's Imports at that moment.
+func (w *ibWorld) closureAfterAdd() string {
+	if len(w.paths) < 2 {
+		return ""
+	}
+	prog := &common.Program{Module: "ib"}
+	for _, p := range w.paths {
+		src := "package " + strings.ReplaceAll(filepath.Base(p), "-", "_") + "\n\n"
+		var imps []string
+		for _, e := range w.edges {
+			if e[0] == p {
+				imps = append(imps, e[1])
+				src += fmt.Sprintf("import _ %q\n", e[1])
+			}
+		}
+		prog.Pkgs = append(prog.Pkgs, &common.ProgPkg{Path: p, Name: filepath.Base(p), File: "x.go", Imports: imps, Source: src})
+	}
+	gopathMu.Lock()
+	defer gopathMu.Unlock()
+	root, err := writeGopath(prog)
+	if root != "" {
+		defer os.RemoveAll(root)
+	}
+	if err != nil {
+		return ""
+	}
+	os.Setenv("GO111MODULE", "off")
+	os.Setenv("GOPATH", root)
+	build.Default.GOPATH = root
+	b := parser.New()
+	k := (len(w.paths) + 1) / 2
+	for _, p := range w.paths[:k] {
+		if err := b.AddDir(p); err != nil {
+			return "" // import cycles etc.: not this scenario's business
+		}
+	}
+	c, err := generator.NewContext(b, namer.NameSystems{"raw": namer.NewRawNamer("", nil)}, "raw")
+	if err != nil {
+		return ""
+	}
+	check := func(when string) string {
+		got := c.TransitiveIncomingImports()
+		direct := c.IncomingImports()
+		// oracle: importers by reachability over the universe's Imports now
+		imp := map[string][]string{}
+		for _, pk := range c.Universe {
+			for i := range pk.Imports {
+				imp[i] = append(imp[i], pk.Path)
+			}
+		}
+		for key := range imp {
+			seen := map[string]bool{}
+			stack := append([]string(nil), imp[key]...)
+			for len(stack) > 0 {
+				n := stack[len(stack)-1]
+				stack = stack[:len(stack)-1]
+				if seen[n] {
+					continue
+				}
+				seen[n] = true
+				stack = append(stack, imp[n]...)
+			}
+			want := common.SortedKeys(seen)
+			have := append([]string(nil), got[key]...)
+			sort.Strings(have)
+			if strings.Join(want, ",") != strings.Join(have, ",") {
+				return fmt.Sprintf("%s: transitive importers of %s are %v, the universe's imports give %v", when, key, have, want)
+			}
+			d := append([]string(nil), direct[key]...)
+			sort.Strings(d)
+			wd := append([]string(nil), imp[key]...)
+			sort.Strings(wd)
+			if strings.Join(d, ",") != strings.Join(wd, ",") {
+				return fmt.Sprintf("%s: direct importers of %s are %v, the universe's imports give %v", when, key, d, wd)
+			}
+		}
+		return ""
+	}
+	if m := check("after NewContext"); m != "" {
+		return m
+	}
+	for _, p := range w.paths[k:] {
+		if _, err := c.AddDirectory(p); err != nil {
+			return ""
+		}
+		if m := check("after AddDirectory(" + p + ")"); m != "" {
+			return m
+		}
+	}
+	return ""
 }
 
 func (w *ibWorld) materialise() string {
@@ -289,6 +386,11 @@ func ibExec(lines []string) ([]string, []common.Failure) {
 					}
 				}
 				outs[i] = first
+				// the same through a real Context that grows: the closures are cached lazily, and AddDirectory must
+				// invalidate them (a stale cache would judge inverse rules on yesterday's import graph)
+				if msg := w.closureAfterAdd(); msg != "" {
+					fails = append(fails, common.Failure{Sig: "closure-stale-after-add", What: msg})
+				}
 			case "imports":
 				pkg := common.Unhex(f[2])
 				// what the tool feeds into the rules: importRules.Imports – observed through a permissive run is
